@@ -8,6 +8,8 @@ def run(tier, seed, replay=None):
     rep.add_tlc(gd)
     leg = tlc_must_fail("GoodDay", "GoodDayLegacy.cfg", expect="FindsClosest", workers=4)   # D3 at design level
     rep.add_tlc(leg)
+    # the same lemma by induction for a window of +-40 days and every validity pattern (Apalache)
+    apalache_inductive(rep, "GoodDayInd")
     if tier == "thorough":
         args = ["--n", 20000, "--years", 40]
     else:
